@@ -256,6 +256,34 @@ def d4(mod, run, w, cfg=None):
     return n
 
 
+def d7(run, cfg):
+    """D7: varintDimensionPack / Unpack give back the coordinates (witness/roundtrip.c; closed forms by E1, identity by bit slices)"""
+    from .. import e1
+    from ..slices import is_identity, first_difference
+    mod = lib_module(cfg, witness=("wrap", "roundtrip")); n = 0
+    for name, what, want in (("rt_dimCol", "column of Pack(0, x)", "x"), ("rt_dimRow", "row of Pack(x, 0)", "x"), ("rt_dimColRowOfRow1", "row of Pack(1, x)", 1)):
+        if mod.fn(name) is None: raise AnalysisBroken("round-trip witness %s not found" % name)
+        try: cls = e1.table(mod, name, input_arg=0, dst_arg=-1)
+        except e1.Unsupported as ex: raise AnalysisBroken("D7 %s: outside the supported term language: %s" % (name, ex))
+        cur = 0
+        for (lo, hi, ret, _s) in cls:
+            if lo != cur: raise AnalysisBroken("D7 %s: classes do not tile the domain at %d" % (name, cur))
+            cur = hi + 1
+        if cur != (1 << 64): raise AnalysisBroken("D7 %s: classes end at %d" % (name, cur))
+        for (lo, hi, ret, _s) in cls:
+            n += 1
+            if want == "x": ok = ret is not None and is_identity(ret, lo, hi); wit = None if ok else first_difference(ret, lo, hi)
+            else:
+                r2 = e1.norm(ret, lo, hi); ok = (e1.is_c(r2) and r2[1] == want) or (e1.lbound(ret, lo, hi) == want == e1.ubound(ret, lo, hi))
+                wit = None if ok else next((x for x in (lo, hi, (lo + hi) // 2) if e1.ev(ret, x) != want), None)
+            if not ok and wit is None: raise AnalysisBroken("D7 %s on [%d, %d]: closed form %s neither proved nor refuted" % (name, lo, hi, e1.show(ret)[:120]))
+            run.check(ok, "D7-pack-unpack-gives-coordinates-back", {"what": what, "x_in": [lo, hi]},
+                      Finding("D7-packed-coordinate-differs", "varintDimensionPack", what, "class[%d,%d]" % (lo, hi),
+                              "%s for x in [%d, %d] comes back as %s (e.g. x = %s gives %s): the level chosen does not have room for the coordinate, its top bits spill into the other field" % (
+                                  what, lo, hi, e1.show(ret)[:120], wit, e1.ev(ret, wit) if wit is not None else "?"), loc="src/varintDimension.c"))
+    return n
+
+
 def run(tier):
     run = Run(PROP, tier, level="other", technique="compile-time witnesses (static assertions over the header macros) + bit-layout abstract interpretation (E2) + structural offset rules on LLVM IR")
     n1 = d1(run)
@@ -263,8 +291,9 @@ def run(tier):
     for cfg in configs_for(tier):
         mod = lib_module(cfg); w = World(mod)
         d2(mod, run, w)
-        n3 = d3(mod, run, w); n4 = d4(mod, run, w, cfg)
-        per[cfg] = {"offset_paths": n3, "bit_cell_cases": n4}
+        n3 = d3(mod, run, w); n4 = d4(mod, run, w, cfg); n7 = d7(run, cfg)
+        per[cfg] = {"offset_paths": n3, "bit_cell_cases": n4, "pack_round_trip_classes": n7}
+        run.floor("pack/unpack classes (%s)" % cfg, n7, 20)
         run.floor("getEntryByteOffset paths (%s)" % cfg, n3, 16)
         run.floor("bit-cell cases (%s)" % cfg, n4, 24)
     run.coverage.update({"static_assertions": n1, "configurations": per,
